@@ -125,10 +125,13 @@ def _cat_set(items):
     return ({"digit", "wordnd", "other"} - cats) if neg else cats
 def r_C21a(root):
     rel = "textx/lang.py"; t = load(root, rel); out = []
-    init = find(t, "TextXVisitor.__init__"); vs = find(t, "TextXVisitor.visit_str_match")
+    init = find_i(root, rel, "TextXVisitor.__init__"); vs = find_i(root, rel, "TextXVisitor.visit_str_match")
+    fi_i = sem.info(init); fi_v = sem.info(vs)
     rx = None
     for c in calls(init):
-        if callee_name(c) == "compile" and c.args and isinstance(c.args[0], ast.Constant): rx = c.args[0].value
+        if callee_name(c) == "compile" and c.args:
+            a0 = fi_i.expand(c.args[0], at=c)
+            if isinstance(a0, ast.Constant) and isinstance(a0.value, str): rx = a0.value
     if rx is None: raise AnalysisError("keyword regex not found")
     p = list(sre.parse(rx))
     ok = len(p) == 2 and p[0][0] is sc.IN and _cat_set(p[0][1]) == {"wordnd"} and p[1][0] is sc.MAX_REPEAT and p[1][1][0] == 0 and p[1][1][1] == sc.MAXREPEAT \
@@ -137,13 +140,14 @@ def r_C21a(root):
     # full-match guard on the RegExMatch construction + \b suffix
     rm = [c for c in calls(vs) if callee_name(c) == "RegExMatch"]
     if len(rm) != 1: raise AnalysisError("expected one RegExMatch construction in visit_str_match")
-    gs = [ast.unparse(g).replace(" ", "") for g, pol in guards(rm[0]) if pol]
-    full = any(("span()==(0,len(to_match))" in g) or ("end()==len(to_match)" in g) or ("fullmatch" in g) or ("group()==to_match" in g) for g in gs)
+    ats = fi_v.atoms_at(rm[0])
+    gs = [a.replace(" ", "") for a, pol in ats if pol]
+    full = any(("span()==(0,len(" in g) or ("end()==len(" in g) or ("fullmatch(" in g) or ("group()==" in g) for g in gs)
     if not full: out.append(Finding("C21", "C21.a", rel, "TextXVisitor.visit_str_match", ast.unparse(rm[0]), "keyword branch is not guarded by a full match of the identifier regex (guards: %s)" % gs))
     pat = rm[0].args[0]
     tail = pat.values[-1].value if isinstance(pat, ast.JoinedStr) and isinstance(pat.values[-1], ast.Constant) else None
     if tail != "\\b": out.append(Finding("C21", "C21.a", rel, "TextXVisitor.visit_str_match", ast.unparse(rm[0]), "keyword regex does not end in a word boundary"))
-    if not any(ast.unparse(g) == "self.metamodel.autokwd" for g, pol in guards(rm[0]) if pol): out.append(Finding("C21", "C21.a", rel, "TextXVisitor.visit_str_match", ast.unparse(rm[0]), "keyword regex built although autokwd is off"))
+    if not any(a.replace(" ", "") == "self.metamodel.autokwd" and pol for a, pol in ats): out.append(Finding("C21", "C21.a", rel, "TextXVisitor.visit_str_match", ast.unparse(rm[0]), "keyword regex built although autokwd is off"))
     return 4, out
 def r_C04(root):
     out = []; inst = 0
@@ -151,7 +155,8 @@ def r_C04(root):
     regs = {}
     for n in lang.body:
         if isinstance(n, ast.Assign) and isinstance(n.value, ast.Call) and getattr(n.value.func, "id", None) == "_" and isinstance(n.targets[0], ast.Name):
-            regs[n.targets[0].id] = n.value.args[0].value
+            regs[n.targets[0].id] = const_str(n.value.args[0], lang)
+            if regs[n.targets[0].id] is None: raise AnalysisError("regex of base type %s is not a constant string expression" % n.targets[0].id)
         if isinstance(n, ast.Assign) and isinstance(n.value, ast.Call) and getattr(n.value.func, "id", None) == "OrderedChoice" and isinstance(n.targets[0], ast.Name):
             regs[n.targets[0].id] = [e.id for k in n.value.keywords if k.arg == "nodes" for e in k.value.elts]
     procs = None
@@ -188,17 +193,20 @@ def r_C04(root):
     return inst, out
 def r_C25(root):
     rel = "textx/metamodel.py"; t = load(root, rel); out = []; inst = 0
-    gi = find(t, "TextXMetaModel.__getitem__"); inst += 1
-    # in the unqualified branch: current namespace lookup must precede the loop over imported namespaces
-    els = next(s for s in gi.body if isinstance(s, ast.If)).orelse
-    kinds = []
-    for s in els:
-        u = ast.unparse(s)
-        if isinstance(s, ast.If) and "_current_namespace" in u and any(isinstance(b, ast.Return) for b in s.body): kinds.append("current")
-        elif isinstance(s, ast.For) and "_imported_namespaces" in ast.unparse(s.iter) and any(isinstance(b, ast.Return) for b in ast.walk(s)): kinds.append("imported:" + ast.unparse(s.iter))
-        elif isinstance(s, ast.Raise): kinds.append("raise")
-    if kinds[:1] != ["current"] or not (len(kinds) > 1 and kinds[1].startswith("imported:")) or "reversed" in "".join(kinds) or "sorted" in "".join(kinds):
-        out.append(Finding("C25", "C25.a", rel, "TextXMetaModel.__getitem__", " / ".join(kinds), "unqualified lookup order is not: current namespace, then imports in order"))
+    from sa import pyeval
+    gi = find_i(root, rel, "TextXMetaModel.__getitem__"); inst += 1
+    # unqualified lookup evaluated (sa/pyeval.py) on a sample metamodel: the current namespace wins over imports, imports are searched in list order
+    cur = {"A": "cur.A"}; imp1 = {"A": "imp1.A", "B": "imp1.B"}; imp2 = {"B": "imp2.B", "C": "imp2.C"}
+    def lookup(name):
+        env = {gi.args.args[1].arg: name, "self._current_namespace": cur, "self._namespace_stack": ["cur"], "self._imported_namespaces": {"cur": [imp1, imp2]},
+               "self.namespaces": {"cur": cur, "imp1": imp1, "imp2": imp2}, "self.referenced_languages": {}}
+        try: return pyeval.run_block(gi.body, env)
+        except pyeval.Raised as r: return "raise " + r.cls
+    try: got = [lookup("A"), lookup("B"), lookup("C"), lookup("D"), lookup("imp2.B")]
+    except pyeval.Unsupported as e: raise AnalysisError("TextXMetaModel.__getitem__: %s" % e)
+    want = ["cur.A", "imp1.B", "imp2.C", "raise KeyError", "imp2.B"]
+    if got != want:
+        out.append(Finding("C25", "C25.a", rel, "TextXMetaModel.__getitem__", "lookup of A, B, C, D, imp2.B -> %s" % got, "name lookup on a sample metamodel (current namespace {A}, imports [{A,B}, {B,C}]) yields %s, documented order (current namespace, then imports in import order, qualified names directly) gives %s" % (got, want)))
     ni = find(t, "TextXMetaModel._new_import"); inst += 3
     load_call = next((c for c in calls(ni) if callee_name(c) == "metamodel_from_file"), None)
     if load_call is None: raise AnalysisError("import load call not found")
@@ -210,10 +218,14 @@ def r_C25(root):
     fi = sem.info(ni)
     reg = [c for c in calls(ni) if isinstance(c.func, ast.Attribute) and c.func.attr in ("append", "insert", "extend", "appendleft") and "_imported_namespaces" in fi.text(c.func.value, at=c)]
     if not reg or any(c.func.attr != "append" for c in reg): out.append(Finding("C25", "C25.c", rel, "TextXMetaModel._new_import", ast.unparse(reg[0]) if reg else "", "imported namespace is not appended in import order"))
-    fq = find(t, "TextXMetaModel._cls_fqn"); inst += 1
-    names, rows = atoms.table(fq.body)
-    if not any(r.exit_kind == "return" and "ns" in r.exit_text() and "__name__" in r.exit_text() and r.exit_text() != "return cls.__name__" for r in rows):
-        out.append(Finding("C25", "C25.d", rel, "TextXMetaModel._cls_fqn", ast.unparse(fq.body[-1]), "qualified class name does not include the namespace"))
+    fq = find_i(root, rel, "TextXMetaModel._cls_fqn"); inst += 1
+    def fqn(ns):
+        env = {"self._namespace_stack": ["x", ns], fq.args.args[1].arg: {".__name__": "Cls"}}
+        return pyeval.run_block(fq.body, env)
+    try: gotq = [fqn("pkg.mod"), fqn("__base__"), fqn(None)]
+    except pyeval.Unsupported as e: raise AnalysisError("TextXMetaModel._cls_fqn: %s" % e)
+    if gotq != ["pkg.mod.Cls", "Cls", "Cls"]:
+        out.append(Finding("C25", "C25.d", rel, "TextXMetaModel._cls_fqn", "fqn of Cls in pkg.mod / __base__ / None -> %s" % gotq, "qualified class name is %s, documented: namespace + '.' + name, bare name in the base namespace" % gotq))
     return inst, out
 ALL = [r_C26a, r_C26bcdef, r_C21a, r_C04, r_C25]
 if __name__ == "__main__":
